@@ -220,7 +220,7 @@ def execute(case):
             mcmc.convergence_limit = pre.get("limit", 2)
             with watchdog(1):
                 Oracle().run_seeded(pre.get("seed", 9), mcmc.rewire, grid=GRIDW)
-        except Exception:
+        except (Exception, Timeout):
             pass
         mcmc.network = net
         if case.get("limit", -1) >= 0:
@@ -287,7 +287,7 @@ def execute(case):
                 mcmc.convergence_limit = 1
                 with watchdog(1):
                     Oracle().run_seeded(77, mcmc.rewire, grid=GRIDW)
-            except Exception:
+            except (Exception, Timeout):
                 pass
             tr["gout_again"] = _graph_edges(R)
     else:
